@@ -19,7 +19,7 @@ class SkipWords:
     """a line is skipped exactly when its first word is one of the non-DDL statement words (GO, USE, INSERT,
     GRANT, DELETE) in any letter case - a column called goal / user_id / deleted_at at the start of a line is code"""
     fn = "parser.Parser.check_line_on_skip_words"
-    props = ["C03", "C01", "C05"]
+    props = ["C03", "C01", "C05", "C08", "C18"]
     # the upper-case case keeps the obligation a pure regular-language question (decided both ways in milliseconds);
     # the any-case case adds case-insensitivity
     cases = {"any-line": dict(pat=r"[ -~]*", ex="goal int,"), "upper-case-line": dict(pat=r"[ -`{-~]*", ex="UPDATE T SET A = 1;")}
@@ -39,7 +39,7 @@ class NewStatementStart:
     """a line starts a new statement exactly when the statement collected so far is non-empty with balanced
     parentheses and the line begins with ALTER / CREATE / DROP / SET followed by a blank (any letter case)"""
     fn = "parser.Parser.check_new_statement_start"
-    props = ["C03", "C01", "C05"]
+    props = ["C03", "C01", "C05", "C18"]
     cases = {"any-line": dict(pat=r"[ -~]*"), "upper-case-line": dict(pat=r"[ -`{-~]*")}
 
     def build(G, case):
